@@ -1,3 +1,4 @@
+import Svgbob.Proofs.QuotedAppend
 import Svgbob.Proofs.EscapeLine
 /-!
 # C15 — quoted text is shown verbatim, draws nothing, and displaces nothing
@@ -78,5 +79,20 @@ example : ColsOk testEnv testRow (lineParse testRow) := by
   simp at hse; subst hse
   decide
 example : (escapeLine testEnv 0 testRow).2 = "         |".toList := by decide
+
+/-- **quoted texts draw nothing and displace nothing in the endorsement stage**: the stage with the
+quoted texts is the stage of the cells alone (the cells of the row with the region blanked:
+`unescaped_row_is_blanked`) plus one text fragment per quoted text, at the cell of its opening quote
+and with its content verbatim, appended to the top-level fragments; shapes, lines, groups and the
+texts of the cells are unchanged -/
+theorem quoted_texts_are_only_appended (len : List Char → Nat) (cat : Catalogue) (cells : Span)
+    (escaped : List (Cell × List Char)) :
+    endorseAll len cat cells escaped =
+      (endorseAll len cat cells []).map fun r => (r.1 ++ escaped.map quotedFragment, r.2) :=
+  endorseAll_quoted len cat cells escaped
+
+/-- the fragment of a quoted text: a cell text at the opening quote, content verbatim -/
+theorem quoted_fragment_is_verbatim (e : Cell × List Char) :
+    (quotedFragment e).frag = .cellText e.1 e.2 := rfl
 
 end Svgbob.C15
